@@ -265,17 +265,22 @@ struct ErrInfo {
     variant: String,
     parameter: String,
     spans: Vec<(usize, usize)>,
+    /// message() and notes() could be produced (recorded, not judged: the statement asks for located errors)
+    renders: bool,
 }
 fn err_info(e: &lang::Error) -> ErrInfo {
-    let _ = e.message();
-    let _ = e.notes();
+    let renders = std::panic::catch_unwind(std::panic::AssertUnwindSafe(|| {
+        let _ = e.message();
+        let _ = e.notes();
+    }))
+    .is_ok();
     let dbg = format!("{e:?}");
     let variant = dbg.split(|c: char| !c.is_alphanumeric()).next().unwrap_or("").to_string();
     let parameter = match e {
         lang::Error::IncorrectType { parameter_name, .. } => parameter_name.to_string(),
         _ => String::new(),
     };
-    ErrInfo { variant, parameter, spans: e.labels().into_iter().map(|l| (l.span.start, l.span.end)).collect() }
+    ErrInfo { variant, parameter, spans: e.labels().into_iter().map(|l| (l.span.start, l.span.end)).collect(), renders }
 }
 type Parsed<T> = Result<Vec<T>, Vec<ErrInfo>>;
 fn parse_h(s: &str) -> Parsed<H> {
@@ -558,9 +563,16 @@ fn check_source(idx: u64, s: &str, acc: &mut Acc) {
             return;
         }
     }
+    // the statement locates the errors of *parsing*; what format reports for a text it rejects is recorded only
+    // (the same lexer/CST errors are judged through the two parsers above)
     if let Err(e) = &fm {
-        if !check_errors(idx, s, "format", e, acc, &case) {
-            return;
+        if e.is_empty() || e.iter().any(|e| e.spans.is_empty() || e.spans.iter().any(|(a, b)| !boxl::span_ok(s, *a, *b))) {
+            acc.class("format rejects the text with errors that are not located inside it");
+        }
+    }
+    for e in ph.as_ref().err().into_iter().flatten().chain(pv.as_ref().err().into_iter().flatten()).chain(fm.as_ref().err().into_iter().flatten()) {
+        if !e.renders {
+            acc.class(&format!("message()/notes() of error {} panics", e.variant));
         }
     }
     // format is idempotent whenever it succeeds
